@@ -134,12 +134,21 @@ class Recorder:
         return f"fired {self.calls[0][0]} {hexs(self.calls[0][1])}"
 
 
+def seq_reactions(cls, writes):
+    """the reactions of ONE long-lived ParseRecv(cb, frame=cls) to the writes, in order (a device keeps its parser
+    object for its whole life: DummyDev, PRDevice)"""
+    rec = Recorder(cls)
+    return [rec.handle(w) for w in writes]
+
+
 def fstr(frames):
     return "ok " + (",".join(f"{fid}:{hexs(d)}" for fid, d in frames) or "-")
 
 
-def map_frames(state, codec):
-    """per-op state string of sessionlib with the sent frames decoded through `codec`: s=<id>:<payload>,..."""
+def map_frames(state, codec, pad=0):
+    """per-op state string of sessionlib with the sent frames decoded through `codec`: s=<id>:<payload>,...
+    pad > 0 (the device asked for rx padding): a write that is the frame followed by zero bytes up to the next multiple
+    of `pad` counts as the frame alone (sessionlib strips that padding itself, for the built-in framing only)"""
     out = []
     for kv in state.split(";"):
         if kv.startswith("s=") and kv != "s=-":
@@ -147,6 +156,8 @@ def map_frames(state, codec):
             for x in kv[2:].split(","):
                 b = unhex(x)
                 r = codec.decode_at(b, 0)
+                if r and pad and len(b) > r[2] and not any(b[r[2]:]) and len(b) == -(-r[2] // pad) * pad:
+                    b = b[:r[2]]
                 dec.append(f"{r[0]}:{hexs(r[1])}+{len(b) - r[2]}" if r else "undecodable:" + x)
             kv = "s=" + ",".join(dec)
         out.append(kv)
@@ -177,26 +188,28 @@ def device_kind(pstr, kind):
         refdev.RefDevice = old
 
 
-def run_session(pstr, flags, en, div, ops, started, dev="ref"):
+def run_session(pstr, flags, en, div, ops, started, dev="ref", pad=0):
     """(mapped per-op states, summary) of one whole client session; pstr None = the built-in codec;
-    dev "pr": the device's wire side is the real ParseRecv(cb, frame=cls)"""
+    dev "pr": the device's wire side is the real ParseRecv(cb, frame=cls) — ONE parser object for the whole session;
+    pad: the rx padding the device reports (the client then zero-pads every write to a multiple of it)"""
     del PR_DEVICES[:]
     if pstr is None:
-        out, info = sl.run_cfg_history(flags, en, div, ops, started=started)
+        out, info = sl.run_cfg_history(flags, en, div, ops, rxpadding=pad, started=started)
         codec = fc.SerialRef()
     else:
         with device_kind(pstr, dev):
-            out, info = sl.run_cfg_history(flags, en, div, ops, started=started,
+            out, info = sl.run_cfg_history(flags, en, div, ops, rxpadding=pad, started=started,
                                            codec_factory=lambda: fc.RefCodec(pstr), frame_cls=fc.frame_cls(pstr))
         codec = fc.RefCodec(pstr)
     summ = {"errors": info["errors"], "live_after": info["live_after"],
             "connect_time": round(info.get("connect_time", -1) * 10),
             "dev_started_after_connect": info.get("dev_started_after_connect"),
+            "unaligned_writes": info.get("unaligned", []),
             "requests": [(round(t * 10), k, hexs(p)) for t, k, p in info["log"]]}
     if dev == "pr":
         summ["wire_problems"] = [(fid, hexs(pl), f if isinstance(f, str) or f is None else hexs(f))
                                  for d in PR_DEVICES for fid, pl, f in d.wire_problems]
-    return [map_frames(s, codec) for s in out], summ
+    return [map_frames(s, codec, pad) for s in out], summ
 
 
 def parse_stream(line):
@@ -264,10 +277,11 @@ def run_stream_session(pstr, flags, chans, enable, nframes, chunk=0, dev="ref"):
 
 def parse_session(line):
     t = line.split(" ")
-    # session <P> <flags> <en> <div> <started> <ops>
+    # session <P> <flags> <en> <div> <started> <ops> [<ref|pr> [pad=<rx padding>]]
     en = [] if t[3] == "-" else [c == "1" for c in t[3]]
     div = [] if t[4] == "-" else [int(x) for x in t[4].split(",")]
-    return t[1], int(t[2]), en, div, t[5] == "1", t[6].split(";"), (t[7] if len(t) > 7 else "ref")
+    pad = int(t[8][4:]) if len(t) > 8 and t[8].startswith("pad=") else 0
+    return t[1], int(t[2]), en, div, t[5] == "1", t[6].split(";"), (t[7] if len(t) > 7 else "ref"), pad
 
 
 # ---------------------------------------------------------------------------------------------------------
@@ -334,6 +348,71 @@ def gen_routed_stream(rng, rc, nparts=5):
             f[rng.randrange(len(f))] ^= 1 << rng.randrange(8)
             parts.append(bytes(f))
     return b"".join(parts)
+
+
+def align(frame, pad):
+    """a write as CommInterfaceCommon.write() hands it to the link when the device reports rx padding `pad`: zero
+    bytes up to the next multiple of `pad`"""
+    return frame + bytes(-len(frame) % pad) if pad > 1 else frame
+
+
+def session_requests(rng, rc, n=None):
+    """well-formed requests as a client sends them in a row: cmninfo, chinfo 0.., div / enable in single, bulk and
+    all form, start / stop (payload sizes a real request has, so that every one of them must reach its callback)"""
+    nch = rng.randrange(2, 6)
+    reqs = [rc.create(5, b"\x00"), rc.create(2, b"")] + [rc.create(3, bytes([c])) for c in range(nch)]
+    reqs += [rc.create(7, bytes([1, 0] + [rng.choice([0, 1, 7, 255]) for _ in range(nch)])),
+             rc.create(6, bytes([0, rng.randrange(nch), 1])),
+             rc.create(6, bytes([1, 0] + [rng.randrange(2) for _ in range(nch)])),
+             rc.create(7, bytes([2, 0, rng.randrange(256)])),
+             rc.create(6, bytes([2, 0, 0])),
+             rc.create(5, b"\x01")]
+    if n is not None:
+        k = rng.randrange(0, len(reqs) - n + 1)
+        reqs = reqs[k:k + n]
+    return reqs
+
+
+def padded_sequence(rng, rc, pad, n=4):
+    """n consecutive requests, each written alone and zero-padded to a multiple of `pad`"""
+    return [align(f, pad) for f in session_requests(rng, rc, n)]
+
+
+def mixed_sequence(rng, rc, n=6):
+    """requests (padded by 0..32 zero bytes) with other writes between them: padding only, a request cut short, a
+    damaged request, noise rich in the start byte — every write is judged on its own"""
+    out = []
+    for _ in range(n):
+        r = rng.random()
+        f = request_frame(rng, rc) if r < 0.3 else rng.choice(session_requests(rng, rc))
+        if r < 0.55:
+            out.append(f + bytes(rng.randrange(0, 33)))
+        elif r < 0.65:
+            out.append(bytes(rng.choice([1, 4, 16, 32])))
+        elif r < 0.78:
+            out.append(f[:rng.randrange(1, len(f))])
+        elif r < 0.88:
+            b = bytearray(f)
+            b[rng.randrange(len(b))] ^= 1 << rng.randrange(8)
+            out.append(bytes(b) + bytes(rng.randrange(0, 9)))
+        else:
+            out.append(noise(rng, rc, rng.randrange(1, 12)))
+    return out
+
+
+# start byte 0x00 = the byte the client pads its writes with (sequence checks; on top of the drawn codecs)
+ZERO_SOF_CODECS = ["sof=00;hdr=S,L2le,I;foot=crc32be", "sof=00;hdr=S,I,L2be,F;foot=xor;impl=s",
+                   "sof=00;hdr=S,Fff,L1,I,F;foot=sum2le;impl=ib", "sof=00;hdr=S,I,L2le;foot=crc32le;impl=Ena"]
+
+
+# regression sequences (also in corpus/C20/seeded.txt as consecutive `recv handle` lines).  C20-r5m2: four chinfo requests
+# padded to 16 bytes, start byte 0x00
+FIXED_SEQUENCES = ["fam sof=00;hdr=S,L2le,I;foot=crc32be recv seq 00090003009007eb5400000000000000,"
+                   "0009000301e700dbc200000000000000,00090003027e098a7800000000000000,0009000303090ebaee00000000000000"]
+
+
+def seq_line(P, writes):
+    return f"fam {P} recv seq " + ",".join(hexs(w) for w in writes)
 
 
 def draw_codecs(rng, n):
@@ -460,6 +539,11 @@ _FIX = ["sof=a5;hdr=S,I,L2be,F,F;foot=xor", "sof=a5;hdr=S,L2le,I;foot=sum2be;imp
         "sof=a5;hdr=S,L2le,I;foot=sum2be;impl=ib",        # frame id a plain int, frames handed out as bytearray
         "sof=3c;hdr=S,I,L1;foot=sum1;impl=na"]            # frame id of the codec's own IntEnum, payload a bytearray
 FIXED_SESSIONS = [f"session {P} 3 010 0,0,0 0 e0;v3:1;W:a:a;d0,1;W:a:a {dev}" for P in _FIX for dev in ("ref", "pr")]
+# the device reports rx padding: every request after cmninfo is written zero-padded; start byte 0x00 = the padding byte
+FIXED_SESSIONS += [f"session {P} 3 010 0,0,0 0 e0;v3:1;W:a:a;d0,1;W:a:a {dev} pad={pad}"
+                   for P, pad in (("sof=00;hdr=S,L2le,I;foot=crc32be", 16), ("sof=00;hdr=S,I,L2be,F;foot=xor;impl=s", 5),
+                                  ("sof=a5;hdr=S,I,L2be,F,F;foot=xor", 16))
+                   for dev in ("ref", "pr")]
 FIXED_STREAMS = [f"stream {P} 3 10:2:0:0,4:1:1:1,18:4:0:0 0,2 3 3 {dev}" for P in _FIX for dev in ("ref", "pr")]
 
 
@@ -485,12 +569,18 @@ class C20(Prop):
             "in STREAM / ACK frames (every id 0..8 back to back, whole and byte-wise; random chunkings; device known / not "
             "yet known) with the ROUTING to the control / stream queue vs Route.queues (Reasm.run (codec P)); (c) requests, "
             "leading noise, zero padding, near-miss footers, declared-length / id / start-byte sweeps, truncations, noise "
-            "and the same frame sizes through the real ParseRecv(cb, frame=cls) vs recvHandleWith (codec P); (d) whole "
+            "and the same frame sizes through the real ParseRecv(cb, frame=cls) vs recvHandleWith (codec P); (c') SEQUENCES of writes "
+            "through ONE long-lived ParseRecv(cb, frame=cls) per codec (built-in codec, four extra codecs whose start byte "
+            "is the padding byte 0x00, every drawn codec): 4..8 consecutive session requests each zero-padded to an rx "
+            "padding (all of 1..32 for start byte 0x00, six of them otherwise), and requests mixed with padding-only / "
+            "cut-off / damaged / noise writes; every write vs the stateless recvHandleWith (codec P), and the whole "
+            "sequence judged by the oracle write by write (line `fam <P> recv seq w1,w2,..`); (d) whole "
             "client sessions (connect, random configuration history, writes, disconnect) of the real CommHandler under "
             "virtual time, half against the reference device speaking the same codec and half against a device whose wire "
             "side is the real ParseRecv(cb, frame=cls) (recv_handle + the four encoders, built like DummyDev's callbacks), "
             "compared op by op with the same history under the built-in codec after decoding the sent frames (decoded "
-            "requests at the device with their virtual times, client view, device state, errors; every frame of the real "
+            "requests at the device with their virtual times, client view, device state, errors; every third session — "
+            "every one from the third on for a start byte 0x00 — with a device reporting rx padding 2..32, writes aligned; every frame of the real "
             "encoders = the codec's framing of the NxScope payload), and connect / read description / enable / write / "
             "stream start / N stream frames through stream_data() / stop / disconnect sessions on devices with mixed "
             "channel types, vector sizes and metadata, with whole reads and with reads of 1..11 bytes, compared with the "
@@ -690,6 +780,31 @@ class C20(Prop):
                 yield pre + f"recv handle {hexs(bytes(k))}", "padding-only"
             for _ in range(10):
                 yield pre + f"recv handle {hexs(noise(rng, rc, rng.randrange(0, 24)))}", "noise"
+        # (c') SEQUENCES of writes through ONE long-lived ParseRecv(cb, frame=cls) per codec (`self.rec(P)`: the parser
+        # object a device keeps for its whole life), every write compared with the stateless recvHandleWith (codec P):
+        # consecutive requests zero-padded to the device's rx padding 1..32 (all of them for the codecs whose start byte
+        # is the padding byte 0x00), and requests mixed with padding-only / cut-off / damaged / noise writes.  The same
+        # sequences are judged as a whole by the oracle (`fam <P> recv seq …`, extra_checks).
+        self.sequences = list(FIXED_SEQUENCES)
+        for P, writes, tag in self.sequence_cases(rng, T, self.codecs):
+            self.sequences.append(seq_line(P, writes))
+            for w in writes:
+                yield f"fam {P} recv handle {hexs(w)}", tag
+
+    def sequence_cases(self, rng, T, codecs):
+        """(codec, writes, tag) — see (c') in `cases`"""
+        members = ZERO_SOF_CODECS + ["serial"] + [P for P in codecs if P not in ZERO_SOF_CODECS]
+        for ci, P in enumerate(members):
+            rc = self.rc(P)
+            if rc.sof == 0:
+                pads = list(range(1, 33))
+            else:
+                pads = sorted({16} | {(ci * 5 + j * 7) % 32 + 1 for j in range(12 if T else 5)})
+            for pad in pads:
+                yield P, padded_sequence(rng, rc, pad, 4 if pad != 16 else 8), "padded-sequence"
+        for P in members:
+            for _ in range(4 if T else 3):
+                yield P, mixed_sequence(rng, self.rc(P)), "mixed-sequence"
 
     # -- real code ----------------------------------------------------------------------------------------
     def builder(self, P, t):
@@ -847,6 +962,30 @@ class C20(Prop):
                         "hdr_len": rc.hdr_len, "foot_len": rc.foot_len,
                         "expected": fstr(want), "observed": got, "stream": hexs(b"".join(chunks))}
             return None
+        if op == "recv" and t[3] == "seq":
+            # one device-side parser object, several writes: every write is judged on its own, by the same acceptance
+            # predicate as a single write (what the parser saw before must not matter)
+            from props.C02 import dispatcher_verdict
+            writes = [unhex(x) for x in t[4].split(",")]
+            outs = seq_reactions(cls, writes)
+            for k, (w, out) in enumerate(zip(writes, outs)):
+                i = rc.find(w)
+                exp = fc.accepts(rc, w[i:]) if i >= 0 else None
+                want = dispatcher_verdict(exp, out)
+                if want is not None:
+                    alone = Recorder(cls).handle(w)
+                    return {"key": "dispatch-sequence-custom-codec",
+                            "what": f"one ParseRecv(cb, frame=<codec>) object is given {len(writes)} writes in a row; its reaction "
+                                    f"to write #{k + 1} is not the reaction that write gets on its own (that codec's acceptance "
+                                    "predicate: start byte, known id, hdr+foot <= declared length <= len, footer over exactly "
+                                    "the declared length; zero padding after the frame ignored) - what was written before "
+                                    "changed it",
+                            "codec": P, "realisation": "built-in SerialFrame" if P == "serial" else fc.realisation(P),
+                            "start_byte": "0x%02x" % rc.sof, "hdr_len": rc.hdr_len, "foot_len": rc.foot_len,
+                            "writes": [hexs(x) for x in writes], "write_number": k + 1, "write": hexs(w),
+                            "reactions": outs, "same_write_to_a_fresh_parser": alone,
+                            "expected": want, "observed": out}
+            return None
         if op == "recv":
             d = unhex(t[4])
             out = Recorder(cls).handle(d)
@@ -920,18 +1059,18 @@ class C20(Prop):
         return v
 
     def _session_oracle(self, line):
-        P, flags, en, div, started, ops, dev = parse_session(line)
+        P, flags, en, div, started, ops, dev, pad = parse_session(line)
         rc = self.rc(P)
         if not rc.fits(max(2 + len(en), 1 + 5 * len(en))):
             self.skipped += 1
             return None      # the codec's length field cannot carry the bulk request / a full stream frame of this device
         try:
-            ref_out, ref_sum = run_session(None, flags, en, div, ops, started)
+            ref_out, ref_sum = run_session(None, flags, en, div, ops, started, pad=pad)
         except Exception as e:
             self.skipped += 1
             return None      # the history does not run under the built-in codec either: outside this property
         try:
-            out, summ = run_session(P, flags, en, div, ops, started, dev)
+            out, summ = run_session(P, flags, en, div, ops, started, dev, pad)
         except Exception as e:
             return {"key": "session-custom-codec", "what": "a client session that completes with the built-in codec raises "
                     f"{type(e).__name__}: {str(e)[:120]} with a custom codec on both sides", "codec": P,
@@ -945,7 +1084,7 @@ class C20(Prop):
                     "realisation": fc.realisation(P), "frame_id": fid, "payload": pl,
                     "expected": hexs(rc.create(fid, unhex(pl))), "observed": f}
         if summ != ref_sum:
-            k = next(k for k in summ if summ[k] != ref_sum[k])
+            k = next(k for k in ["requests"] + list(summ) if summ[k] != ref_sum[k])
             return {"key": "session-custom-codec", "what": f"session summary field {k!r} differs between the custom and the "
                     "built-in codec (decoded requests at the device / timing / thread errors)", "codec": P,
                     "expected": repr(ref_sum[k])[:400], "observed": repr(summ[k])[:400]}
@@ -1026,8 +1165,10 @@ class C20(Prop):
                 div = [rng.choice([0, 0, 3, 200]) for _ in range(n)]
                 ops = gen_history(rng, n, "a", maxlen=10)
                 started = rng.random() < 0.3
+                # rx padding reported by the device: every third session, always for a start byte equal to the padding byte
+                pad = rng.choice([16, 16, 4, 32, rng.randrange(2, 33)]) if (k % 3 == 2 or (rc.sof == 0 and k >= 2)) else 0
                 yield (f"session {P} {flags} {sl.bits(en)} {sl.ints(div)} {int(started)} {';'.join(ops)} "
-                       f"{'pr' if (ci + k) % 2 else 'ref'}")
+                       f"{'pr' if (ci + k) % 2 else 'ref'}" + (f" pad={pad}" if pad else ""))
 
     def extra_checks(self, rng, tier, ev):
         """(d) whole sessions, real code on both runs; and the self-check of the two harness implementations"""
@@ -1043,6 +1184,16 @@ class C20(Prop):
                 r = fr.frame_decode(f + b"\x00")
                 assert (int(r.fid), r.data, int(r.err)) == (fid, p, 0), ("famcodec self-check: decode", P)
                 assert rc.decode_at(f, 0) == (fid, p, len(f)), ("famcodec self-check: ref decode", P)
+        # (c') the write sequences of `cases`, each through one parser object, judged by the oracle
+        nseq = 0
+        for l in getattr(self, "sequences", []):
+            v = self.oracle(l)
+            nseq += 1
+            if v:
+                v["case"] = l
+                viol.append(v)
+                break
+        ev["coverage"]["write_sequences_judged"] = nseq
         self.skipped = 0
         lines = FIXED_SESSIONS + list(self.session_lines(rng, tier))
         nreq = 0
@@ -1084,6 +1235,13 @@ class C20(Prop):
         for k, a in enumerate(builder_args(rng)):
             for P in (order if k % 2 == 0 else order[::-1]):
                 yield f"fam {P} {a}", "search"
+        for l in FIXED_SEQUENCES:
+            yield l, "search"
+        for P, writes, _ in self.sequence_cases(rng, False, SEARCH_CODECS):
+            yield seq_line(P, writes), "search"
+        for P in ZERO_SOF_CODECS[:2]:
+            for dev in ("ref", "pr"):
+                yield f"session {P} 3 010 0,0,0 0 e0;v3:1;W:a:a;d0,1;W:a:a {dev} pad=16", "search"
         for P in SEARCH_CODECS:
             rc = self.rc(P)
             yield f"fam {P} info", "search"
